@@ -449,6 +449,32 @@ VARIANTS = [
                 "new": "    @staticmethod\n    def _suffix_for(template, block_name):\n"
                        "        if template and template.get_block(block_name).block_type == MsgBlockType.MBT_VARIABLE:\n"
                        "            return _VAR_SUFFIX\n        return \"\"\n\n    @classmethod\n    def _format_var("}]},
+    # ------------------------------------------------------------------ round 9
+    {"name": "R18 F32 read back through a %.8g text form", "file": SER, "expect": "C11.R18",
+     "old": '    def deserialize(self, reader: Reader, ctx):\n        return super().deserialize(reader, ctx)[0]\n',
+     "new": "    def deserialize(self, reader: Reader, ctx):\n        val = super().deserialize(reader, ctx)[0]\n"
+            "        if isinstance(val, float) and reader.pod:\n            val = float(\"%.8g\" % val)\n        return val\n"},
+    {"name": "R18 reader rounds through format(v, '.6f')", "file": SER, "expect": "C11.R18",
+     "old": '    def deserialize(self, reader: Reader, ctx):\n        return super().deserialize(reader, ctx)[0]\n',
+     "new": "    def deserialize(self, reader: Reader, ctx):\n        val = super().deserialize(reader, ctx)[0]\n"
+            "        if isinstance(val, float):\n            val = float(format(val, \".6f\"))\n        return val\n"},
+    {"name": "P18 reader goes through a full-precision text form", "file": SER, "expect": "silent",
+     "old": '    def deserialize(self, reader: Reader, ctx):\n        return super().deserialize(reader, ctx)[0]\n',
+     "new": "    def deserialize(self, reader: Reader, ctx):\n        val = super().deserialize(reader, ctx)[0]\n"
+            "        if isinstance(val, float) and reader.pod:\n            val = float(\"%.17g\" % val)\n        return val\n"},
+    {"name": "P18 reader names the value before returning it", "file": SER, "expect": "silent",
+     "old": '    def deserialize(self, reader: Reader, ctx):\n        return super().deserialize(reader, ctx)[0]\n',
+     "new": "    def deserialize(self, reader: Reader, ctx):\n        val = super().deserialize(reader, ctx)[0]\n        return val\n"},
+    {"name": "P3 registry reached through an accessor helper with an optional override", "expect": "silent",
+     "edits": [{"file": FMT, "old": "def _float_repr(val: float) -> str:\n", "new": 'def _subfield_serializers(override=None):\n    """The registry to use, looked up late"""\n    if override is not None:\n        return override\n    return se.SUBFIELD_SERIALIZERS\n\n\n' + "def _float_repr(val: float) -> str:\n"},
+               {"file": FMT, "all": True, "old": "serializer = se.SUBFIELD_SERIALIZERS.get(ser_key)",
+                "new": "serializer = _subfield_serializers().get(ser_key)"}]},
+    {"name": "R6 accessor helper, packed value serialized at the lookup again", "expect": "C11.R6",
+     "edits": [{"file": FMT, "old": "def _float_repr(val: float) -> str:\n", "new": 'def _subfield_serializers(override=None):\n    """The registry to use, looked up late"""\n    if override is not None:\n        return override\n    return se.SUBFIELD_SERIALIZERS\n\n\n' + "def _float_repr(val: float) -> str:\n"},
+               {"file": FMT, "all": True, "old": "serializer = se.SUBFIELD_SERIALIZERS.get(ser_key)",
+                "new": "serializer = _subfield_serializers().get(ser_key)"},
+               {"file": FMT, "old": "                    pending_packed.append((cur_block, var_name, serializer, var_val))\n",
+                "new": "                    var_val = serializer.serialize(cur_block, var_val)\n                    pending_packed.clear()\n"}]},
     # ------------------------------------------------------------------ documented limits
     {"name": "X wrap width changed (line-wrapping details are value level)", "file": FMT, "expect": "miss",
      "old": "HippoPrettyPrinter(width=100)", "new": "HippoPrettyPrinter(width=40)"},
